@@ -7,6 +7,7 @@
 import PsVerif.Lemmas.Masked
 import PsVerif.Lemmas.RegionA
 import PsVerif.Lemmas.RegionB
+import PsVerif.Props.C03
 namespace PsVerif
 
 variable {σ : Type}
@@ -90,3 +91,46 @@ theorem exactN_count_eq (S : ResidSys σ) (s0 : σ) (n N s k : Nat) (L A : List 
   exact exactN_count_core S s0 n N s L A h.hNn h.hL h.hLn h.hAp h.hA h.hnn0 hs hin hout hnn hpos
 
 end PsVerif
+
+/-! ### Non-vacuity: a concrete feasible instance of every theorem (Gram system of a 4×2 basis matrix) -/
+section NonVacuity
+open PsVerif
+
+def exB : RMat := #[#[3, 0], #[0, 2], #[1, 1], #[2, 3]]
+def exA : List Nat := [3, 0, 2, 1]
+
+private theorem exB_wf : exB.WF exB.size 2 := by unfold RMat.WF; decide
+
+private theorem ex_nonneg (mask : Mask) : NonnegRun gramSys mask (gram exB) 4 2 := by
+  intro j hj c
+  exact gram_state_nonneg exB 2 exB_wf zc mask j (by show j ≤ 4; omega) c
+
+private theorem ex_setup (L : List Nat) (hL : ∀ x ∈ L, x < 4) (hLn : L.Nodup) :
+    GqrSetup gramSys (gram exB) 4 2 L exA :=
+  { hN := by decide, hNn := by decide, hL := hL, hLn := hLn, hAp := by decide,
+    hA := by decide +kernel, hnn0 := ex_nonneg noMask }
+
+/-- exact_n, under-filled (QR's first two sensors 3, 0 contain no sensor of the region {1, 2}) -/
+example : ((greedyRunFrom gramSys zc (cfgOf .exactN [1, 2] 1 exA 2).mask (gram exB) 4 2).p.toList.take 2).countP
+    (inL [1, 2]) = 1 :=
+  exactN_count_eq gramSys (gram exB) 4 2 1 2 [1, 2] exA (ex_setup _ (by decide) (by decide))
+    (by decide) (by decide) (by decide) (by decide) (ex_nonneg _) (by unfold PosCands; decide +kernel)
+
+/-- max_n, over-filled (QR's first two sensors are both in the region {0, 3}, one is allowed) -/
+example : ((greedyRunFrom gramSys zc (cfgOf .maxN [0, 3] 1 exA 2).mask (gram exB) 4 2).p.toList.take 2).countP
+    (inL [0, 3]) ≤ 1 :=
+  maxN_count_le gramSys (gram exB) 4 2 1 2 [0, 3] exA (ex_setup _ (by decide) (by decide))
+    (by decide) (by decide) (ex_nonneg _) (by unfold PosCands; decide +kernel)
+
+/-- predetermined -/
+example :
+    let r := (greedyRunFrom gramSys zc (cfgOf .predetermined [1, 2] 1 exA 2).mask (gram exB) 4 2).p.toList.take 2
+    (∀ x ∈ r.take 1, inL [1, 2] x = false) ∧ (∀ x ∈ r.drop 1, inL [1, 2] x = true) :=
+  predetermined_split gramSys (gram exB) 4 2 1 2 [1, 2] exA (ex_setup _ (by decide) (by decide))
+    (by decide) (by decide) (by decide) (by decide) (ex_nonneg _) (by unfold PosCands; decide +kernel)
+
+/-- the constraint is really active in these instances: the constrained ranking differs from QR's -/
+example : (greedyRunFrom gramSys zc (cfgOf .exactN [1, 2] 1 exA 2).mask (gram exB) 4 2).p.toList.take 2 = [3, 1] := by
+  decide +kernel
+
+end NonVacuity
